@@ -3,6 +3,7 @@ package main
 import (
 	"fmt"
 	"go/token"
+	"go/types"
 
 	"golang.org/x/tools/go/ssa"
 )
@@ -87,6 +88,99 @@ func init() {
 				if !found {
 					c.Fail("cause-loop-bound:"+name, c.P.Pos(fn.Pos()), "no 'remaining ≥ constant' loop around buildErrorCause found")
 				}
+			}
+		}})
+}
+
+func init() {
+	register(&Rule{ID: "C12.R11", Props: []string{"C12", "C14"}, Engine: "E1-sibling",
+		Title:   "RE-CONFIG framing agrees between encoder and decoder: parameter A is written first and padded to 4 bytes exactly when a parameter B follows, B is appended after the padding; the decoder looks for B at length(A)+padding(length(A)) and stores the first/second parsed parameter into paramA/paramB respectively",
+		MinInst: 6,
+		Run: func(c *RuleCtx) {
+			enc, dec := c.Fn("chunkReconfig.marshal"), c.Fn("chunkReconfig.unmarshal")
+			pA, pB := c.field("chunkReconfig", "paramA"), c.field("chunkReconfig", "paramB")
+			getPad, padB, build := c.Fn("getPadding"), c.Fn("padByte"), c.Fn("buildParam")
+			isMarshalOf := func(v ssa.Value, f *types.Var) bool {
+				ex, ok := v.(*ssa.Extract)
+				if !ok || ex.Index != 0 {
+					return false
+				}
+				call, ok := ex.Tuple.(*ssa.Call)
+				return ok && call.Call.IsInvoke() && call.Call.Method.Name() == "marshal" && IsLoadOf(f)(call.Call.Value)
+			}
+			// encoder
+			var appendB *ssa.Call
+			forEachInstr(enc, func(in ssa.Instruction) {
+				if call, ok := in.(*ssa.Call); ok {
+					if b, ok := call.Call.Value.(*ssa.Builtin); ok && b.Name() == "append" && len(call.Call.Args) == 2 && isMarshalOf(call.Call.Args[1], pB) {
+						appendB = call
+					}
+				}
+			})
+			c.Check(appendB != nil, "enc-B-appended", c.P.Pos(enc.Pos()), "paramB.marshal() is appended", "encoder does not append parameter B's bytes")
+			if appendB != nil {
+				base, ok := appendB.Call.Args[0].(*ssa.Call)
+				okPad := ok && base.Call.StaticCallee() == padB && isMarshalOf(base.Call.Args[0], pA)
+				if okPad {
+					g, ok := base.Call.Args[1].(*ssa.Call)
+					okPad = ok && g.Call.StaticCallee() == getPad
+					if okPad {
+						l, ok := unconv(g.Call.Args[0]).(*ssa.Call)
+						okPad = ok && isMarshalOf(l.Call.Args[0], pA)
+					}
+				}
+				c.Check(okPad, "enc-A-then-pad-then-B", c.Pos(appendB), "append(padByte(A, getPadding(len(A))), B…)", "parameter B is not appended to parameter A padded to a 4-byte boundary (wrong order, or padding computed from something else)")
+				c.Dom("enc-pad-iff-B", appendB, CmpCond(token.NEQ, IsLoadOf(pB), isNilConst), "paramB != nil")
+			}
+			// what reaches chunkHeader.raw when there is no B is A unpadded: the φ at the merge has A's bytes on the other edge
+			rawF := c.field("chunkHeader", "raw")
+			okRaw := false
+			for _, a := range c.storesIn(enc, rawF) {
+				if phi, ok := a.Val.(*ssa.Phi); ok {
+					hasA, hasAB := false, false
+					for _, e := range phi.Edges {
+						if isMarshalOf(e, pA) {
+							hasA = true
+						}
+						if e == ssa.Value(appendB) {
+							hasAB = true
+						}
+					}
+					okRaw = hasA && hasAB
+				}
+			}
+			c.Check(okRaw, "enc-value", c.P.Pos(enc.Pos()), "chunk value = A, or A‖pad‖B", "chunk value is not A (alone, unpadded) or A‖pad‖B")
+			// decoder
+			calls := callsIn(dec, build)
+			c.Check(len(calls) == 2, "dec-two-params", c.P.Pos(dec.Pos()), "two buildParam sites (A, optional B)", fmt.Sprintf("%d buildParam sites", len(calls)))
+			for _, a := range c.storesIn(dec, pA) {
+				ex, ok := a.Val.(*ssa.Extract)
+				okA := ok && len(calls) == 2 && ex.Tuple == calls[0].(ssa.Value)
+				if okA {
+					_, sliced := callArg(calls[0], 1).(*ssa.Slice)
+					okA = !sliced
+				}
+				c.Check(okA, "dec-A-is-first", c.Pos(a.Instr), "paramA = parameter parsed at offset 0", "paramA is not the parameter parsed at the start of the chunk value")
+			}
+			for _, a := range c.storesIn(dec, pB) {
+				ex, ok := a.Val.(*ssa.Extract)
+				okB := false
+				if ok && len(calls) == 2 && ex.Tuple == calls[1].(ssa.Value) {
+					if sl, ok := callArg(calls[1], 1).(*ssa.Slice); ok && sl.Low != nil {
+						if sum, ok := unconv(sl.Low).(*ssa.BinOp); ok && sum.Op == token.ADD {
+							isLenA := func(v ssa.Value) bool {
+								call, ok := v.(*ssa.Call)
+								return ok && call.Call.IsInvoke() && call.Call.Method.Name() == "length"
+							}
+							isPadLenA := func(v ssa.Value) bool {
+								call, ok := v.(*ssa.Call)
+								return ok && call.Call.StaticCallee() == getPad && isLenA(call.Call.Args[0])
+							}
+							okB = (isLenA(sum.X) && isPadLenA(sum.Y)) || (isLenA(sum.Y) && isPadLenA(sum.X))
+						}
+					}
+				}
+				c.Check(okB, "dec-B-after-padded-A", c.Pos(a.Instr), "paramB parsed at length(A)+getPadding(length(A))", "paramB is not parsed at length(A)+padding(length(A))")
 			}
 		}})
 }
